@@ -203,7 +203,37 @@ func (c *Ctx) socketUses() []socketUse {
 					use("arg:<dynamic>")
 				}
 			case *ssa.Return:
-				use("other:returned")
+				// a module function that hands a socket back (an accessor, a constructor helper): its callers hold it
+				nSites := 0
+				ridx := -1
+				for i, rv := range x.Results {
+					if rv == it.v {
+						ridx = i
+					}
+				}
+				if fn != nil && an.InModule(fn) && ridx >= 0 {
+					for _, g := range c.shippedFuncs(G) {
+						for _, ci := range an.Calls(g) {
+							call, isCall := ci.(*ssa.Call)
+							if !isCall || an.StaticCallee(call.Common()) != fn {
+								continue
+							}
+							nSites++
+							if len(x.Results) == 1 {
+								push(call, it.src+" (returned by "+fname(fn)+")")
+							} else if call.Referrers() != nil {
+								for _, rr := range *call.Referrers() {
+									if ex, isEx := rr.(*ssa.Extract); isEx && ex.Index == ridx {
+										push(ex, it.src+" (returned by "+fname(fn)+")")
+									}
+								}
+							}
+						}
+					}
+				}
+				if nSites == 0 {
+					use("other:returned")
+				}
 			default:
 				use("other:" + r.String())
 			}
